@@ -62,11 +62,28 @@ class E1Run:
             self.scenario = intify_keys(copy.deepcopy(a["scenario"]))
             self.inv = intify_keys(copy.deepcopy(a.get("inventory") or {}))
             self.origin = a.get("origin", "explicit")
+        elif a.get("schedule_dir"):
+            # episode-scheduled scenario shipped as a directory. Reference executions hand the path to PrimaiteGymEnv;
+            # "fresh" executions (schedule_episode given) build the environment from the dict a fresh scheduler yields
+            # for that episode index.
+            import os as _os
+
+            from dst.scenario import IO_OFF, SHIPPED_DIR
+
+            self.schedule_path = _os.path.join(SHIPPED_DIR, a["schedule_dir"])
+            self.origin = "shipped-dir:" + a["schedule_dir"]
+            if a.get("schedule_episode") is not None:
+                from primaite.session.episode_schedule import build_scheduler
+
+                self.scenario = build_scheduler(self.schedule_path)(int(a["schedule_episode"]))
+                self.schedule_path = None
+            else:
+                self.scenario = {}
         elif a.get("shipped"):
             from dst.scenario import load_shipped
 
-            self.scenario = load_shipped(a["shipped"], max_episode_length=a.get("max_episode_length"), seed=a.get("game_seed", self.seed % (2**31)), io=a.get("io"))
-            self.origin = "shipped:" + a["shipped"]
+            self.scenario = load_shipped(a["shipped"], max_episode_length=a.get("max_episode_length"), seed=a.get("game_seed", self.seed % (2**31)), io=a.get("io"), tap_variation=a.get("tap_variation"))
+            self.origin = "shipped:" + a["shipped"] + ("+tap-variation" if a.get("tap_variation") is not None else "")
         else:
             from dst.scenario import generate
 
@@ -88,7 +105,12 @@ class E1Run:
             from pathlib import Path
 
             primaite.PRIMAITE_PATHS.user_sessions_path = Path(run_dir) / "sessions"
-        self.env = PrimaiteGymEnv(copy.deepcopy(self.scenario))
+        if getattr(self, "schedule_path", None):
+            self.env = PrimaiteGymEnv(self.schedule_path)
+            sched = self.env.episode_scheduler
+            self.scenario = sched(0)
+        else:
+            self.env = PrimaiteGymEnv(copy.deepcopy(self.scenario))
         return self.env
 
     # -- op execution ------------------------------------------------------------------------------------------------
@@ -105,6 +127,7 @@ class E1Run:
             # start of the compared part of the history (E3): forget the log and the identifier numbering so far
             self.log = []
             self.canon = Canon()
+            self.episode_at_mark = self.env.episode_counter + 1  # index of the episode the next reset builds
         elif kind in ("b_new", "b_reset", "b_step", "b_close"):
             self.do_b(op)
         else:
@@ -255,7 +278,22 @@ class E1Run:
             agents[name] = [h.action, jsonable(h.parameters), jsonable(h.request), h.response.status, jsonable(h.response.data), h.reward]
         # the nested observation carries the same information as a flattened one and lets a divergence be located
         nested = self.env.agent.observation_manager.current_observation
-        self.log.append(self.canon.obj({"obs": jsonable(nested), "reward": reward, "trunc": trunc, "agents": agents}))
+        entry = {"obs": jsonable(nested), "reward": reward, "trunc": trunc, "agents": agents}
+        if self.args.get("record_state"):
+            entry["state"] = self.node_state_digests()
+        self.log.append(self.canon.obj(entry))
+
+    def node_state_digests(self) -> Dict:
+        """Per-node digests of the canonicalised public state (Simulation.describe_state): part of the compared log in
+        the isolation checks, so that a leak that has not reached an observation yet is still seen."""
+        st = jsonable(self.env.game.simulation.describe_state())
+        out = {}
+        if self.args.get("record_state") == "full":
+            return {"nodes": st["network"]["nodes"], "<links>": st["network"]["links"]}
+        for name, ns in st["network"]["nodes"].items():
+            out[name] = digest(Canon().obj(ns))
+        out["<links>"] = digest(Canon().obj(st["network"]["links"]))
+        return out
 
     # -- op generation -----------------------------------------------------------------------------------------------
     def gen_op(self) -> List:
@@ -376,7 +414,11 @@ class E1Run:
             files = sorted(f.name for f in fobj.files.values()) if fobj else []
             if files and r.random() < 0.7:
                 fn = r.choice(files)
+                if r.random() < 0.2:
+                    return ["req", base + ["file_system", "delete", "file", folder, fn], k]
                 return ["req", base + ["file_system", "folder", folder, "file", fn, r.choice(["corrupt", "scan", "repair", "restore"])], k]
+            if r.random() < 0.1 and folder != "root":
+                return ["req", base + ["file_system", r.choice(["delete", "restore"]), "folder", folder], k]
             return ["req", base + ["file_system", "folder", folder, r.choice(["scan", "repair", "restore"])], k]
         return None
 
@@ -390,6 +432,7 @@ class E1Run:
             entropy_seed=a.get("entropy_seed", seams.derive(self.seed, "entropy" + str(a.get("entropy_salt", "")))),
             clock_script=a.get("clock") if a.get("clock") is not None else seams.clock_script_for(self.seed, a.get("clock_kind", "auto")),
             id_width=a.get("id_width", "mixed"),
+            rng_seed=seams.derive(self.seed, "global_rng"),
             logging_on=bool(a.get("logging_on")),
         )
         violation = None
@@ -432,6 +475,11 @@ class E1Run:
                         # end of the dirtying history: from here on the log is compared with a fresh environment's (C04a)
                         batch = [["mark"], ["reset", int(a.get("mark_reset_seed", 0))]]
                         mark_at = None
+                        if a.get("no_reset_after_mark"):
+                            mix = dict(a.get("op_mix") or {"step": 0.86, "reset": 0.04, "fault": 0.10})
+                            mix["step"] = mix.get("step", 0) + mix.get("reset", 0)
+                            mix["reset"] = 0.0
+                            a["op_mix"] = mix
                     else:
                         batch = [first] if (i == 0 and first) else self.gen_ops()
                     for op in batch:
@@ -483,6 +531,8 @@ class E1Run:
             out["ops"] = self.ops
             out["scenario"] = self.scenario
             out["inventory"] = self.inv
+        if getattr(self, "episode_at_mark", None) is not None:
+            out["episode_at_mark"] = self.episode_at_mark
         if self.record_log:
             out["log"] = self.log
             out["log_digest"] = digest(self.log)
